@@ -486,3 +486,18 @@ def reaching_defs(fn, did, at_id):
     run(fn, [None], transfer, None)
     return {(fn.node(i) if i is not None else None) for i in out}
 
+
+def value_arms(fn, v, at):
+    """[(value node, branch decisions that hold where that value is produced)]: the arms of `c ? a : b` (nested ones too)
+    are separate values, each under the decisions of its own arm; any other value is produced at element `at`."""
+    x = v.strip()
+    if x.kind == "ConditionalOperator" and len(x.children) == 3:
+        return value_arms(fn, x.children[1], at) + value_arms(fn, x.children[2], at)
+    pos = fn.positions()
+    cur, hops = x, 0
+    while cur is not None and cur.id not in pos and hops < 10:
+        ch = cur.children
+        cur, hops = (ch[0] if ch else None), hops + 1
+    anchor = cur if cur is not None and cur.id in pos else at
+    return [(v, facts_at(fn, anchor.id))]
+
